@@ -122,12 +122,11 @@ AllOf(s, P(_)) == \A i \in 1..Len(s) : P(s[i])
 \* univ: split like str.splitlines (all boundaries, CR LF once), else at LF only;
 \* keep: the terminator stays on the line (iteration over a file object)
 \* a final piece is a line only when it is not empty -- both for splitlines and for files
-\* (the scan recurses per character inside a line and per line, never over the whole text)
-RECURSIVE NextBoundary(_, _, _)        \* first boundary character at or after i, Len(s) + 1 if none
+\* (the scan recurses per line, never per character of the whole text)
+\* first boundary character at or after i, Len(s) + 1 if none
 NextBoundary(s, univ, i) ==
-    IF i > Len(s) THEN i
-    ELSE IF (univ /\ IsUBoundary(s[i])) \/ (~univ /\ s[i] = LF) THEN i
-    ELSE NextBoundary(s, univ, i + 1)
+    LET B == {j \in i..Len(s) : (univ /\ IsUBoundary(s[j])) \/ (~univ /\ s[j] = LF)} IN
+    IF B = {} THEN Len(s) + 1 ELSE CHOOSE j \in B : \A k \in B : j <= k
 RECURSIVE SplitScan(_, _, _, _, _)
 SplitScan(s, univ, keep, st, acc) ==
     IF st > Len(s) THEN acc
@@ -208,7 +207,8 @@ IsBlank(l, ws) == IF ws \/ ReaderNoWsRule THEN AllBytesWs(l) ELSE l = <<>>
 \* ^-----(BEGIN|END) PGP ([^-]+)-----[\r\t ]*$
 PgpB == <<45, 45, 45, 45, 45, 66, 69, 71, 73, 78, 32, 80, 71, 80, 32>>
 PgpE == <<45, 45, 45, 45, 45, 69, 78, 68, 32, 80, 71, 80, 32>>
-IsPgpLine(l) == \E pre \in {PgpB, PgpE} :
+IsPgpLine(l) == /\ Len(l) >= 19 /\ l[1] = Hyphen                   \* (cheap guard, implied by the rest)
+                /\ \E pre \in {PgpB, PgpE} :
                    /\ Len(l) > Len(pre) /\ SubSeq(l, 1, Len(pre)) = pre
                    /\ \E a \in (Len(pre) + 1)..(Len(l) - 5) :
                          /\ \A i \in (Len(pre) + 1)..a : l[i] # Hyphen
